@@ -63,6 +63,8 @@ Cases, shrinking, signatures
     case_key(case) -> canonical text (names pool removed)     case_size(case) -> sort key, smallest first
     smaller_cases(case) -> iterator of strictly smaller well-formed cases (for vf.explore.shrink)
     role_text(project, text) -> text with project identifiers replaced by role tokens (for signatures)
+
+Self-test:  cd /verif && /venv/bin/python -m vf.batchgen [nmax]   (consistency + gfortran compile/run of every project)
 """
 import builtins
 import contextlib
@@ -1273,3 +1275,35 @@ def role_text(project, text):
     for name, tok in sorted(repl, key=lambda r: -len(r[0])):
         text = re.sub(rf'(?i)(?<![A-Za-z0-9]){re.escape(name)}(?:_r)?(?![A-Za-z0-9])', tok, text)
     return text
+
+
+# ----------------------------------------------------------------------------- generator self-test
+def _selftest_one(spec):
+    p = build_project(spec)
+    # ground-truth consistency: every dependency target is an item of the project or an undefined external
+    for name, info in p.items.items():
+        for d in info.deps:
+            if not d.external and d.target not in p.items:
+                return f'{spec}: dependency {name} -> {d.target} has no item'
+        if info.file not in p.files:
+            return f'{spec}: item {name} lives in unknown file {info.file}'
+    return p.gfortran_check(None)
+
+
+def selftest(nmax=3, feature_budget=1, nproc=8):
+    """`/venv/bin/python -m vf.batchgen [nmax]`: every project of the enumeration is internally consistent, is accepted
+    by gfortran and prints what simulate() predicts.  Returns the list of (spec, message) that fail."""
+    import multiprocessing as mp
+    specs = list(enumerate_projects(nmax, feature_budget=feature_budget))
+    with mp.get_context('fork').Pool(nproc) as pool:
+        res = pool.map(_selftest_one, specs, chunksize=4)
+    bad = [(s, r) for s, r in zip(specs, res) if r]
+    print(f'batchgen selftest: {len(specs)} projects (n<={nmax}, <= {feature_budget} feature), {len(bad)} rejected')
+    for s, r in bad[:10]:
+        print('  ', s, r)
+    return bad
+
+
+if __name__ == '__main__':
+    import sys
+    sys.exit(1 if selftest(int(sys.argv[1]) if len(sys.argv) > 1 else 3) else 0)
